@@ -239,6 +239,20 @@ def relational_vector(vec):
                     problems.append(tag + f"{{C10}} inflow-driven model driven with the stock-driven ({name}) inflow does not reproduce the stock")
             if not allclose(m.inflow.values, l.inflow.values, tol_scale):
                 problems.append(tag + "{C10} manual and lapack solvers disagree")
+            # the inverse is linear too: a prescribed stock scaled by 2^-40 (every value far below any absolute threshold) returns the
+            # inflow scaled by 2^-40; and a LARGE legacy cohort next to ordinary later ones (additions far below any relative threshold
+            # of the standing stock) still returns every cohort's inflow
+            for name in ("manual", "lapack"):
+                tiny_sd = run_sd(S, model, variant, a.stock.values * 2.0 ** -40, name)
+                if not allclose(tiny_sd.inflow.values * 2.0 ** 40, d1, tol_scale):
+                    problems.append(tag + f"{{C10,C16}} stock-driven ({name}): the inflow for a stock scaled by 2^-40 is not the inflow scaled by 2^-40")
+            d_leg = d1.copy()
+            d_leg[0] = d_leg[0] + 2.0 ** 23
+            leg = run_id(S, model, variant, d_leg)
+            for name in ("manual", "lapack"):
+                leg_sd = run_sd(S, model, variant, leg.stock.values.copy(), name)
+                if not allclose(leg_sd.inflow.values, d_leg, tol_scale * 2.0 ** 23):
+                    problems.append(tag + f"{{C10}} stock-driven ({name}): with a large legacy cohort (2^23) the inflow of the later, ordinary cohorts is not returned")
             # a phase-out on the SAME inflow-driven object: the inflow of the later cohorts is set to zero and the model recomputed;
             # the stock-driven model fed with that stock returns the phased-out inflow
             ph = run_id(S, model, variant, d1)
